@@ -474,10 +474,50 @@ func runCheck12(c *vh.Ctx, in input) {
 			c.Violation("resumed-while-disabled", "resumed although SessionTicketsDisabled", "case", in)
 		case old != out.UsedOldKey || !bytes.Equal(st.Master, out.Master):
 			c.Violation("resume-state", "resumed with a different master secret / usedOldKey than the ticket's", "case", in)
+		case !hasSuite(in.ClientSuites, out.SuiteID):
+			c.Violation("resumed-suite-not-offered", fmt.Sprintf("resumed with suite %#04x, which this ClientHello does not offer", out.SuiteID), "case", in)
+		case !suiteUsable(s, out.SuiteID):
+			c.Violation("resumed-suite-not-supported", fmt.Sprintf("resumed with suite %#04x, which the server configuration / key type does not allow in a full handshake", out.SuiteID), "case", in)
+		case (len(st.Certificates) == 0 && (s.Auth == 2 || s.Auth == 4)) || (len(st.Certificates) != 0 && s.Auth == 0):
+			c.Violation("resumed-against-client-auth", fmt.Sprintf("resumed a session with %d client certificates under ClientAuth=%d", len(st.Certificates), s.Auth), "case", in)
 		}
 	} else if in.Scenario == "valid" || in.Scenario == "old-key" || in.Scenario == "fresh-boundary" {
 		c.Violation("valid-ticket-not-resumed", "an authentic fresh ticket with offered and supported suite was not resumed ("+in.Scenario+")", "case", in)
 	}
+}
+
+func hasSuite(xs []uint16, id uint16) bool {
+	for _, x := range xs {
+		if x == id {
+			return true
+		}
+	}
+	return false
+}
+
+// suiteUsable: would a full handshake on this server be allowed to pick the suite
+// (configured, known, matching the server key type, allowed for the version)?
+func suiteUsable(s srvIn, id uint16) bool {
+	suites := s.Suites
+	if suites == nil {
+		suites = tls.VerifC31DefaultSuites()
+	}
+	if !hasSuite(suites, id) {
+		return false
+	}
+	for _, f := range tls.VerifC31Suites() {
+		if f.ID != id {
+			continue
+		}
+		if f.TLS12Only && s.Vers < 0x0303 {
+			return false
+		}
+		if f.ECDHE {
+			return s.ECDHE && ((f.ECSign && s.ECSign) || (!f.ECSign && s.RSASign))
+		}
+		return !f.DSS && s.RSADecrypt
+	}
+	return false
 }
 
 type detRand struct{ r *bytes.Reader }
@@ -650,8 +690,9 @@ func runShake(c *vh.Ctx, in input) {
 		return cfg
 	}
 	cc := &cache{}
+	// the client's clock stays at t0: it keeps offering a ticket that the server must judge stale
 	ccfg := &tls.Config{InsecureSkipVerify: true, ServerName: "c31", ClientSessionCache: cc, MinVersion: vers, MaxVersion: vers,
-		Time: func() time.Time { return time.Unix(now, 0) }}
+		Time: func() time.Time { return time.Unix(t0, 0) }}
 	srvA := newServer(kA)
 	first := shake(srvA, ccfg)
 	if first.cErr != nil || first.sErr != nil || cc.s == nil {
